@@ -21,7 +21,11 @@ def sh(cmd, **kw):
 
 def main():
     name, patch, demo, props = sys.argv[1:5]
-    tier = sys.argv[6] if len(sys.argv) > 6 and sys.argv[5] == "--tier" else "quick"
+    rest = sys.argv[5:]
+    tier = rest[rest.index("--tier") + 1] if "--tier" in rest else "quick"
+    save = rest[rest.index("--save") + 1] if "--save" in rest else None
+    breaks = rest[rest.index("--breaks") + 1] if "--breaks" in rest else props.split(",")[0]
+    needs = rest[rest.index("--needs") + 1] if "--needs" in rest else ""
     wt = f"/tmp/seedtest_{name}"
     sh(["git", "-C", "/repo", "worktree", "remove", "--force", wt])
     r = sh(["git", "-C", "/repo", "worktree", "add", "-q", wt, "HEAD"])
@@ -51,6 +55,25 @@ def main():
             out["checks"][prop] = {"exit": c.returncode, "wall_s": round(time.time() - t0, 1), "lines": lines[:6]}
     finally:
         sh(["git", "-C", "/repo", "worktree", "remove", "--force", wt])
+    if save:
+        import shutil
+
+        d = os.path.join(VERIF, "seeded", save)
+        os.makedirs(d, exist_ok=True)
+        shutil.copy(patch, os.path.join(d, "patch.diff"))
+        shutil.copy(demo, os.path.join(d, "demo.py"))
+        notes = os.path.join(os.path.dirname(patch), os.path.basename(patch).replace("change", "notes").replace(".diff", ".md"))
+        if os.path.exists(notes):
+            shutil.copy(notes, os.path.join(d, "notes.md"))
+        meta = {"id": save, "breaks_property": breaks, "needs_to_manifest": needs,
+                "confirmed": {"applies_to_HEAD": out.get("applies"), "test_suite": out.get("tests"),
+                              "demo_exit_with_change": out.get("demo_with_change_exit"), "demo_exit_clean_tree": out.get("demo_clean_exit")},
+                "ran": f"selftest/try_seeded.py (scratch worktree of /repo HEAD under /tmp, git apply, pytest, demo with and without the change, "
+                       f"then run_check.py <prop> --tier {tier} with VERIF_REPO=<worktree>)",
+                "repo_head": sh(["git", "-C", "/repo", "rev-parse", "--short", "HEAD"]).stdout.strip(),
+                "checks": {k: {"detected": v["exit"] == 1, "exit": v["exit"], "wall_s": v["wall_s"], "first_lines": v["lines"][:4]} for k, v in out["checks"].items()}}
+        with open(os.path.join(d, "meta.json"), "w") as f:
+            json.dump(meta, f, indent=1)
     print(json.dumps(out, indent=1))
 
 
